@@ -400,4 +400,114 @@ Proof.
            ++ destruct (marked (n_path a) M || marked (n_path b) M); [discriminate|].
               apply IH in Hrest. destruct Hrest as [x [H1 H2]]. exists x. auto.
 Qed.
+
+(* ---- the other direction, for comparisons started with no marks ---- *)
+Lemma out_none_kind : forall M a, out m M a = None ->
+  (exists r, n_kind a = NTy None (TRef r)) \/
+  (exists r1 ext r2, n_kind a = NTy None (TCons KChoice r1 ext r2)).
+Proof.
+  intros M a H. unfold out, fetch_fuel in H.
+  destruct (n_kind a) as [|tg t]; [simpl in H; discriminate|].
+  destruct tg as [[c n]|]; [simpl in H; discriminate|].
+  destruct t as [pr|items|k0 r1 ext r2|e|r]; simpl in H.
+  - destruct pr; discriminate.
+  - discriminate.
+  - destruct k0; try discriminate. right. eauto.
+  - discriminate.
+  - left. eauto.
+Qed.
+
+Lemma marked_nil : forall p, marked p [] = false.
+Proof. reflexivity. Qed.
+
+Lemma choice_member_of_tag : forall p r1 ext r2 x,
+  first_tag m None (TCons KChoice r1 ext r2) x ->
+  exists v, In v (members (m_tagging m) p r1 ext r2) /\ ntags (n_kind v) x.
+Proof.
+  intros p r1 ext r2 x H. inversion H; subst.
+  - simpl in *. discriminate.
+  - (* FT_alt *)
+    match goal with Hn : nth_error (sp_comps r1 ext r2) ?i = Some (?c, ?t) |- _ =>
+      rename Hn into Hnth; rename i into i0; rename c into c0; rename t into t0 end.
+    unfold members. rewrite auto_eq.
+    unfold sp_comps in Hnth. rewrite app_assoc in Hnth.
+    destruct (Nat.lt_ge_cases i0 (length (r1 ++ r2))) as [Hlt|Hge].
+    + rewrite nth_error_app1 in Hnth by exact Hlt.
+      destruct (mk_nodes_nth (sp_auto m r1 (adds_of ext) r2) p (root_of r1 r2) 0 0 i0 c0 t0 Hnth) as [v [H1 [H2 _]]].
+      exists v. split; [apply in_or_app; left; exact H1|].
+      rewrite H2. simpl. assumption.
+    + rewrite nth_error_app2 in Hnth by exact Hge.
+      destruct ext as [a|]; [|destruct (i0 - length (r1 ++ r2))%nat; discriminate].
+      simpl in Hnth.
+      destruct (mk_nodes_nth (sp_auto m r1 a r2) p a (S (length (root_of r1 r2))) (length (root_of r1 r2))
+                             (i0 - length (r1 ++ r2)) c0 t0 Hnth) as [v [H1 [H2 _]]].
+      exists v. split; [apply in_or_app; right; right; exact H1|].
+      rewrite H2. simpl. unfold root_of.
+      replace (length (r1 ++ r2) + (i0 - length (r1 ++ r2)))%nat with i0 by lia. assumption.
+  - (* FT_future *)
+    unfold members. eexists. split; [apply in_or_app; right; left; reflexivity|]. reflexivity.
+Qed.
+
+(* b's side never needs the swap-with-marks step when an untagged reference
+   whose fetch fails has no tags at all (dangling, circular or empty) *)
+Definition transparent (b : node) : Prop :=
+  forall r, n_kind b = NTy None (TRef r) -> out m [] b = None ->
+            forall x, ~ first_tag m None (TRef r) x.
+
+Lemma compare_false_disjoint : forall fuel a b,
+  transparent b -> compare m fuel [] a b = Done false ->
+  disjoint (ntags (n_kind a)) (ntags (n_kind b)).
+Proof.
+  induction fuel as [|f IH]; intros a b Tb H; [discriminate H|].
+  rewrite compare_S in H. cbv zeta in H.
+  destruct (out m [] a) as [ta|] eqn:Ra.
+  - destruct (out m [] b) as [tb|] eqn:Rb.
+    + inversion H as [E]. apply otag_eqb_neq in E.
+      intros x Ha Hb. apply (out_exact a ta Ra) in Ha. apply (out_exact b tb Rb) in Hb. congruence.
+    + destruct (choice_members m b) as [vs|] eqn:Cb.
+      * assert (Ta : transparent a) by (intros r _ C; congruence).
+        specialize (IH b a Ta H). intros x Ha Hb. exact (IH x Hb Ha).
+      * (* b is an untagged reference without tags *)
+        destruct (out_none_kind [] b Rb) as [[r K]|[r1 [ext [r2 K]]]].
+        -- intros x _ Hb. rewrite K in Hb. simpl in Hb. exact (Tb r K Rb x Hb).
+        -- unfold choice_members in Cb. rewrite K in Cb. discriminate.
+  - assert (Hrest :
+      match is_ref a with
+      | Some r => match lookup m r with None => Done false | Some d => compare m f [] (def_node d) b end
+      | None =>
+          match choice_members m a with
+          | Some vs =>
+              (fix iter (l : list node) : res :=
+                 match l with
+                 | [] => Done false
+                 | v :: l' => match compare m f [] v b with Done false => iter l' | r => r end
+                 end) vs
+          | None =>
+              match out m [] b, choice_members m b with
+              | None, Some _ => compare m f [] b a
+              | _, _ => if marked (n_path a) [] || marked (n_path b) [] then Done false
+                        else compare m f [n_path a; n_path b] b a
+              end
+          end
+      end = Done false).
+    { destruct (out m [] b); exact H. }
+    clear H.
+    destruct (out_none_kind [] a Ra) as [[r K]|[r1 [ext [r2 K]]]].
+    + assert (Hr : is_ref a = Some r) by (unfold is_ref; rewrite K; reflexivity).
+      rewrite Hr in Hrest. rewrite K. simpl.
+      destruct (lookup m r) as [d|] eqn:L.
+      * specialize (IH (def_node d) b Tb Hrest).
+        intros x Ha Hb. inversion Ha; subst; [simpl in *; discriminate|].
+        match goal with Hl : lookup m r = Some ?d' |- _ => rewrite L in Hl; inversion Hl; subst end.
+        apply (IH x); [simpl; assumption | exact Hb].
+      * intros x Ha _. inversion Ha; subst; [simpl in *; discriminate|]. congruence.
+    + assert (Hr : is_ref a = None) by (unfold is_ref; rewrite K; reflexivity).
+      assert (Hc : choice_members m a = Some (members (m_tagging m) (n_path a) r1 ext r2))
+        by (unfold choice_members; rewrite K; reflexivity).
+      rewrite Hr, Hc in Hrest. rewrite K. simpl.
+      intros x Ha Hb.
+      destruct (choice_member_of_tag (n_path a) r1 ext r2 x Ha) as [v [Hin Hv]].
+      pose proof (iter_false _ _ Hrest v Hin) as Hcv.
+      exact (IH v b Tb Hcv x Hv Hb).
+Qed.
 End Compare.
